@@ -458,3 +458,43 @@ func lazyDecls(g *Goal) string {
 	}
 	return sb.String()
 }
+
+
+// PrintParamClauses prints, for every function under contract in the given
+// packages, the `params` clause naming its current parameters.
+func PrintParamClauses(dir string, patterns []string) error {
+	ld, err := LoadModule(Module{Dir: dir, Patterns: patterns}, nil)
+	if err != nil {
+		return err
+	}
+	e := NewEngine()
+	e.Prog = ld.Prog
+	targets, _, err := LoadContracts(e, ld, "")
+	if err != nil {
+		return err
+	}
+	for _, t := range targets {
+		if t.Fn == nil {
+			continue
+		}
+		var names []string
+		for _, p := range t.Fn.Params {
+			n := p.Name()
+			if n == "" {
+				n = "_"
+			}
+			names = append(names, n)
+		}
+		fmt.Printf("%s\t%s\t//@ params %s\n", t.C.File, t.C.Key, strings.Join(names, " "))
+		hasLoop := false
+		for _, cl := range t.C.Clauses {
+			if cl.Loop > 0 {
+				hasLoop = true
+			}
+		}
+		if ls := DeclaredLocals(t.Fn); hasLoop && len(ls) > 0 {
+			fmt.Printf("%s\t%s\t//@ locals %s\n", t.C.File, t.C.Key, strings.Join(ls, " "))
+		}
+	}
+	return nil
+}
